@@ -730,6 +730,12 @@ impl<'a> Message<'a> {
                 "An error response message was attempted to be created from a non-request message"
             );
         }
+        Message::builder_error_unchecked(orig)
+    }
+
+    // an error response for `orig` without insisting that `orig` is a request: used where the
+    // source message is arbitrary peer input (attribute policing) and must not cause a panic
+    fn builder_error_unchecked<'b>(orig: &Message) -> MessageBuilder<'b> {
         Message::builder(
             MessageType::from_class_method(MessageClass::Error, orig.method()),
             orig.transaction_id(),
@@ -1294,7 +1300,7 @@ impl<'a> Message<'a> {
         src: &Message,
         attributes: &[AttributeType],
     ) -> MessageBuilder<'b> {
-        let mut out = Message::builder_error(src);
+        let mut out = Message::builder_error_unchecked(src);
         let software = Software::new("stun-types").unwrap();
         out.add_attribute(&software).unwrap();
         let error = ErrorCode::new(420, "Unknown Attributes").unwrap();
@@ -1323,7 +1329,7 @@ impl<'a> Message<'a> {
     /// assert_eq!(error_code.code(), 400);
     /// ```
     pub fn bad_request<'b>(src: &'a Message) -> MessageBuilder<'b> {
-        let mut out = Message::builder_error(src);
+        let mut out = Message::builder_error_unchecked(src);
         let software = Software::new("stun-types").unwrap();
         out.add_attribute(&software).unwrap();
         let error = ErrorCode::new(400, "Bad Request").unwrap();
